@@ -1162,10 +1162,16 @@ impl TDigestView<'_> {
         }
         let last_weight = self.centroids[num_centroids - 1].weight();
         if last_weight > 1. && (centroids_weight - weight <= last_weight / 2.) {
+            // One sample sits at max, the rest of the centroid's upper half spreads between
+            // its mean and max. A centroid of weight 2 has nothing in between.
+            let half = (last_weight / 2.) - 1.;
+            let fraction = if half > 0. {
+                (centroids_weight - weight - 1.) / half
+            } else {
+                1.
+            };
             return Some(
-                self.max
-                    + (((centroids_weight - weight - 1.) / ((last_weight / 2.) - 1.))
-                        * (self.max - self.centroids[num_centroids - 1].mean)),
+                self.max - (fraction * (self.max - self.centroids[num_centroids - 1].mean)),
             );
         }
 
